@@ -4,6 +4,27 @@ import json, os
 HERE = os.path.dirname(os.path.dirname(os.path.abspath(__file__)))
 ALL = ['C%02d' % i for i in range(1, 21)]
 CLAIMED = {
+  'C01': dict(
+    text='A reference semantics of Linen compact modules over flax.core.Scope written from the code (reservations and name clashes, push/rewound, _collection/_mutable_collection, '
+         'param/variable/put_variable/sow/perturb/make_rng with their error classes, counters shared per scope path, autoname cursor, repeated calls of an instance, int64 arithmetic) as a '
+         'fuelled interpreter of a module-program language. Proved for every program, filter, variables and input: collections not selected by `mutable` come out exactly as they went in, no '
+         'collection disappears, what apply returns are exactly the final collections matching `mutable`; a write to an immutable collection is EModifyScope, an uninitialisable parameter '
+         'raises, sow into an immutable collection is a no-op. Tied to /repo per run: random programs through real Modules (init, init_with_output, apply, 1-3 repeats, dict/FrozenDict), '
+         'outputs, returned trees and error classes compared in Coq; identity-level purity of inputs and observation features by oracle.',
+    note='Trusted: Coq kernel, vm_compute, harness (program interpreter ProgBase), jaxcompat. Not in the program grammar: setup-style modules, bind/unbind, methods other than __call__; '
+         'the sow/perturb-do-not-change-the-output clause is checked by oracle, not proved. Object identity of inputs is oracle-only. No axioms.',
+    technique='Coq proof (frame invariant by induction over the fuelled interpreter) + per-run model-vs-implementation correspondence by vm_compute',
+    ref='DESIGN.md section 5, C01'),
+  'C09': dict(
+    text='Linen: on the reference semantics of C01, every key handed out is addressed by (stream after the params fallback, module path, per-scope count) and no two draws of one init/apply share '
+         'an address (invariant over the interpreter, all programs); the byte string hashed with the separator determines the path for zero-free components (F8 and the no-separator collision '
+         'are the proved refutations outside that domain). NNX: stream = (key term, count); for every history of draws, split_rngs and restore_rngs no key term is handed out twice; missing '
+         'stream -> default; reseed restarts. Tied to /repo per run: every observed key is decoded by an independent recomputation (hashlib.sha1 + jax.random) into an address / key term and the '
+         'sequences are compared with the model in Coq, under both settings of flax_fix_rng_separator.',
+    note='ASSUMPTION (not proved): idealised PRNG - fold_in/split/key injective, SHA-1[:4] injective on the hashed strings. Trusted: Coq kernel, vm_compute, harness, jaxcompat, jax.random, '
+         'hashlib. split(k, n)[i] is independent of n (observed) and the key terms record i only. Known finding F8. No axioms.',
+    technique='Coq proof (trace invariants over the interpreter and over stream histories) + per-run correspondence by decoding observed keys, vm_compute',
+    ref='DESIGN.md section 5, C09'),
   'C10': dict(
     text='Theorems about a Gallina model of flax.serialization written from the code (to_state_dict/from_state_dict with the dict, FrozenDict, list, tuple, '
          'namedtuple and struct-dataclass handlers, str(i) index keys, _chunk/_unchunk and their tree drivers, ext packing of arrays/np scalars/complex, and '
